@@ -1063,6 +1063,33 @@ impl Monitor for StateMonitor {
                         }
                     }
                 }
+                13..=15 if label.starts_with("rndc19") && sc.path == PathKind::BuilderDefaults => {
+                    // the same terms under names of more than 255 bytes, written with as_bytes and loaded
+                    // again: the stored names are cut (another property's business), the classification is
+                    // that of the facts
+                    out.bucket("obtained/long_names_then_round_trip");
+                    let mut f = sc.view.clone();
+                    let n = f.terms.len();
+                    for _ in 0..rng.urange(1, 4) {
+                        let i = rng.below(n as u64) as usize;
+                        let unit = *rng.pick(&["x", "é", "漢", "name "]);
+                        f.terms[i].name = unit.repeat(rng.urange(256, 700) / unit.len() + 1);
+                    }
+                    let first = match drive::via_builder(&f, None, true) {
+                        Ok(o) => o,
+                        Err(e) => {
+                            out.violate("C19", "construct_err/builder_defaults", format!("valid facts rejected: {e}"));
+                            return out;
+                        }
+                    };
+                    match drive::as_bytes(&first).map_err(BuildFail::Panic).and_then(|b| drive::from_bytes(&b)) {
+                        Ok(o) => o,
+                        Err(e) => {
+                            out.violate("C19", "construct_err/long_names_round_trip", format!("an ontology with term names of more than 255 bytes cannot be written and loaded again: {e}"));
+                            return out;
+                        }
+                    }
+                }
                 _ => ont,
             }
         } else {
